@@ -18,6 +18,8 @@ import (
 	"sort"
 	"time"
 
+	gxbytes "github.com/dubbogo/gost/bytes"
+
 	"seata.apache.org/seata-go/pkg/protocol/branch"
 	"seata.apache.org/seata-go/pkg/protocol/codec"
 	"seata.apache.org/seata-go/pkg/protocol/message"
@@ -47,6 +49,7 @@ type Res struct {
 	N      int    `json:"n"`
 	M      *Msg   `json:"m,omitempty"`
 	Detail string `json:"detail,omitempty"`
+	Stall  bool   `json:"stall,omitempty"` // "need more" although a complete frame is at the head of the buffer
 }
 
 type Ev struct {
@@ -58,7 +61,24 @@ type ReadCase struct {
 	Kind   string `json:"kind"`
 	Data   string `json:"data"`
 	Res    Res    `json:"res"`
-	Oracle string `json:"oracle"`
+	// the same bytes given to a handler instance that has served other calls before
+	// (History: the buffers of those calls): Read must answer the same
+	History []string `json:"history,omitempty"`
+	After   *Res     `json:"after,omitempty"`
+	Oracle  string   `json:"oracle"`
+}
+
+// two connections served by one handler instance
+type InterleaveCase struct {
+	Kind   string   `json:"kind"`
+	A      string   `json:"a"`     // bytes connection A receives (cut off mid-frame)
+	B      string   `json:"b"`     // bytes connection B receives (complete frames)
+	Sched  [][2]int `json:"sched"` // arrival order: [side (0 = A, 1 = B), chunk length]
+	EvA    []Ev     `json:"ev_a"`
+	EvB    []Ev     `json:"ev_b"`
+	WantA  []Msg    `json:"want_a"`
+	WantB  []Msg    `json:"want_b"`
+	Oracle string   `json:"oracle"`
 }
 
 type PrefixCase struct {
@@ -82,6 +102,7 @@ type DriveCase struct {
 	Data   string  `json:"data"`
 	Tbl    [][]Ev  `json:"tbl"`
 	Parts  []Part  `json:"parts"`
+	BadFrame int   `json:"bad_frame"` // index of the frame with an undecodable body (-1: none)
 	NMsgs  int     `json:"nmsgs"` // messages written into the stream (valid streams), -1 for garbage
 	Oracle string  `json:"oracle"`
 	BadAt  int     `json:"bad_at"`
@@ -99,11 +120,15 @@ type Result struct {
 	Prefixes  []PrefixCase `json:"prefixes"`
 	Drives    []DriveCase  `json:"drives"`
 	Writes    []WriteCase  `json:"writes"`
+	Interleaves []InterleaveCase `json:"interleaves"`
 	ReadCalls int          `json:"read_calls"`
 	Aborted   string       `json:"aborted"`
 }
 
 var (
+	// the handler under test. One instance serves every session of the real client; here every
+	// case starts with a fresh one (so that a case replays in isolation) and uses it for all the
+	// calls / connections of the case
 	handler   = &getty.RpcPackageHandler{}
 	readCalls int
 	diverged  int
@@ -183,11 +208,33 @@ func observe(rm message.RpcMessage, data []byte) *Msg {
 }
 
 // readOnce calls the real Read on an exact-size copy of buf under a guard.
+func freshHandler() { handler = &getty.RpcPackageHandler{} }
+
+// completeFrame: the harness' own reading of the fixed header: a complete, well-delimited
+// frame is at the head of the buffer (magic, 16 <= head length <= total length <= available)
+func completeFrame(data []byte) bool {
+	if len(data) < 16 || data[0] != 0xda || data[1] != 0xda {
+		return false
+	}
+	total := int(uint32(data[3])<<24 | uint32(data[4])<<16 | uint32(data[5])<<8 | uint32(data[6]))
+	hl := int(uint16(data[7])<<8 | uint16(data[8]))
+	return hl >= 16 && hl <= total && total <= len(data)
+}
+
 func readOnce(buf []byte) Res {
 	data := make([]byte, len(buf))
 	copy(data, buf)
+	r, _ := readRaw(data, data)
+	return r
+}
+
+// readRaw calls the real Read on `data` as it is (no copy); `ref` holds the same bytes in
+// storage nobody else writes to (the observation is made against it). The delivered
+// RpcMessage object is returned as well.
+func readRaw(data, ref []byte) (Res, *message.RpcMessage) {
 	readCalls++
 	var r Res
+	var obj *message.RpcMessage
 	class, detail := hutil.Guard(readLimit, func() error {
 		pkg, n, err := handler.Read(nil, data)
 		if err != nil {
@@ -203,7 +250,8 @@ func readOnce(buf []byte) Res {
 			r = Res{C: "msg", N: n, M: &Msg{Body: hx([]byte("<<not an RpcMessage>>"))}}
 			return nil
 		}
-		r = Res{C: "msg", N: n, M: observe(rm, data)}
+		r = Res{C: "msg", N: n, M: observe(rm, ref)}
+		obj = &rm
 		return nil
 	})
 	switch class {
@@ -211,12 +259,15 @@ func readOnce(buf []byte) Res {
 		if len(detail) > 600 {
 			detail = detail[:600]
 		}
-		return Res{C: "panic", Detail: detail}
+		return Res{C: "panic", Detail: detail}, nil
 	case hutil.OutDiverged:
 		diverged++
-		return Res{C: "diverged", Detail: detail}
+		return Res{C: "diverged", Detail: detail}, nil
 	}
-	return r
+	if r.C == "need" && completeFrame(ref) {
+		r.Stall = true
+	}
+	return r, obj
 }
 
 // driveLoop is getty v1.5.0 session.handleTCPPackage: append what was received;
@@ -242,6 +293,9 @@ func driveLoop(chunks [][]byte) []Ev {
 				return append(evs, Ev{E: "close"})
 			}
 			if r.C == "need" {
+				if r.Stall {
+					return append(evs, Ev{E: "stall"})
+				}
 				break
 			}
 			evs = append(evs, Ev{E: "deliver", M: r.M})
@@ -256,6 +310,84 @@ func driveLoop(chunks [][]byte) []Ev {
 		}
 	}
 	return evs
+}
+
+const gettyReadBufLen = 4 * 1024 // getty v1.5.0 maxReadBufLen
+
+// driveLoopShared is the same loop over getty's own receive buffer (gost bytes.Buffer:
+// WriteNextBegin / WriteNextEnd / Bytes / Next): ONE storage that is reused once everything in it
+// has been consumed. The delivered message OBJECTS are kept and looked at again after the whole
+// stream (and one more receive) has gone through the buffer.
+func driveLoopShared(chunks [][]byte) (evs []Ev, late string) {
+	type kept struct {
+		obj   *message.RpcMessage
+		frame []byte
+		obs   *Msg
+	}
+	var keep []kept
+	pktBuf := gxbytes.NewBuffer(nil)
+	recv := func(c []byte) {
+		for len(c) > 0 {
+			buf := pktBuf.WriteNextBegin(gettyReadBufLen)
+			n := copy(buf, c)
+			pktBuf.WriteNextEnd(n)
+			c = c[n:]
+		}
+	}
+	done := false
+	for _, c := range chunks {
+		if len(c) == 0 || done {
+			continue
+		}
+		recv(c)
+		for pktBuf.Len() > 0 {
+			data := pktBuf.Bytes()
+			ref := append([]byte{}, data...)
+			r, obj := readRaw(data, ref)
+			switch r.C {
+			case "panic", "diverged":
+				evs, done = append(evs, Ev{E: r.C}), true
+			case "err":
+				evs, done = append(evs, Ev{E: "close"}), true
+			}
+			if done {
+				break
+			}
+			if r.C == "need" {
+				if r.Stall {
+					evs, done = append(evs, Ev{E: "stall"}), true
+				}
+				break
+			}
+			evs = append(evs, Ev{E: "deliver", M: r.M})
+			if obj != nil {
+				keep = append(keep, kept{obj, ref, r.M})
+			}
+			if r.N <= 0 {
+				evs, done = append(evs, Ev{E: "spin"}), true
+				break
+			}
+			pktBuf.Next(r.N)
+		}
+	}
+	// one more receive goes through the buffer, then the delivered objects are looked at again
+	filler := make([]byte, 96)
+	for i := range filler {
+		filler[i] = 0xee
+	}
+	recv(filler)
+	for i, k := range keep {
+		if again := observe(*k.obj, k.frame); !sameMsg(again, k.obs) {
+			return evs, fmt.Sprintf("delivered message %d changed after later bytes were received (it shares storage with the receive buffer)", i)
+		}
+	}
+	return evs, ""
+}
+
+func sameEvs(a, b []Ev) bool {
+	x, _ := json.Marshal(a)
+	y, _ := json.Marshal(b)
+	return bytes.Equal(x, y)
 }
 
 // ---- generators ----
@@ -284,7 +416,7 @@ func genBody(r *hutil.Rng) interface{} {
 	case 5:
 		return message.GlobalCommitRequest{AbstractGlobalEndRequest: message.AbstractGlobalEndRequest{Xid: rstr(r, 40), ExtraData: []byte(rstr(r, 10))}}
 	case 6:
-		return message.BranchRollbackRequest{AbstractBranchEndRequest: message.AbstractBranchEndRequest{Xid: rstr(r, 30), BranchId: int64(r.Next()), BranchType: bt, ResourceId: rstr(r, 20)}}
+		return message.BranchRollbackRequest{AbstractBranchEndRequest: message.AbstractBranchEndRequest{Xid: rstr(r, 30), BranchId: int64(r.Next()), BranchType: bt, ResourceId: rstr(r, 20), ApplicationData: []byte(rstr(r, 50))}}
 	case 7:
 		return message.BranchReportRequest{Xid: rstr(r, 30), BranchId: int64(r.Next()), ResourceId: rstr(r, 20), Status: branch.BranchStatus(r.Intn(10)), ApplicationData: []byte(rstr(r, 20)), BranchType: bt}
 	default:
@@ -532,6 +664,10 @@ func garbageOracleRes(r Res) string {
 		if r.N <= 0 {
 			return "Read returned a package with consumed length 0 (the transport loop spins)"
 		}
+	case "need":
+		if r.Stall {
+			return "Read answered 'need more data' although a complete frame is at the head of the buffer: the frame is neither delivered nor rejected, the transport loop waits for ever"
+		}
 	}
 	return ""
 }
@@ -554,6 +690,8 @@ func garbageOracleEvs(evs []Ev) string {
 			return "Read hung inside the receive loop"
 		case "spin":
 			return "a package with consumed length 0 was delivered: the transport loop spins"
+		case "stall":
+			return "'need more data' with a complete frame at the head of the buffer: neither delivered nor rejected, every later frame of the connection is stuck behind it"
 		}
 	}
 	return ""
@@ -643,25 +781,70 @@ func (t *tblEv) add(evs []Ev) int {
 	return len(t.tbl) - 1
 }
 
+// lenientStreamOracle: a stream of good frames with ONE well-delimited frame whose body no
+// codec understands at index bad. That frame may be delivered (with whatever body) or rejected
+// with an error (session closed) — but the loop must not stall, and the good frames are delivered
+// in order: all of them, or those before the rejected one.
+func lenientStreamOracle(evs []Ev, want []Msg, bad int) string {
+	if s := garbageOracleEvs(evs); s != "" {
+		return s
+	}
+	for i, e := range evs {
+		if e.E == "close" {
+			if i < bad {
+				return fmt.Sprintf("session closed at frame %d, before the frame with the undecodable body (%d)", i, bad)
+			}
+			return ""
+		}
+		if i >= len(want) {
+			return "more deliveries than frames"
+		}
+		if i != bad && !sameMsg(e.M, &want[i]) {
+			return fmt.Sprintf("delivery %d differs from the message written", i)
+		}
+	}
+	if len(evs) < len(want) {
+		return fmt.Sprintf("%d of %d frames delivered, the connection is open and waits: the frames behind the one with the undecodable body are stuck", len(evs), len(want))
+	}
+	return ""
+}
+
 func driveCase(kind string, data []byte, parts [][]int, want []Msg, valid bool) DriveCase {
-	dc := DriveCase{Kind: kind, Data: hx(data), NMsgs: -1, BadAt: -1}
+	return driveCaseBad(kind, data, parts, want, valid, -1)
+}
+
+func driveCaseBad(kind string, data []byte, parts [][]int, want []Msg, valid bool, bad int) DriveCase {
+	dc := DriveCase{Kind: kind, Data: hx(data), NMsgs: -1, BadAt: -1, BadFrame: bad}
+	if valid || bad >= 0 {
+		dc.Want = want
+	}
 	if valid {
 		dc.NMsgs = len(want)
-		dc.Want = want
 	}
 	t := &tblEv{keys: map[string]int{}}
 	for pi, lens := range parts {
 		if diverged >= 2 {
 			break
 		}
+		freshHandler()
 		evs := driveLoop(cut(data, lens))
 		dc.Parts = append(dc.Parts, Part{Lens: append([]int{}, lens...), Ev: t.add(evs)})
+		freshHandler()
+		evs2, late := driveLoopShared(cut(data, lens))
 		if dc.Oracle == "" {
 			var o string
 			if valid {
 				o = streamOracle(evs, want)
+			} else if bad >= 0 {
+				o = lenientStreamOracle(evs, want, bad)
 			} else {
 				o = garbageOracleEvs(evs)
+			}
+			if o == "" && late != "" {
+				o = late
+			}
+			if o == "" && !sameEvs(evs, evs2) {
+				o = "the deliveries through getty's reusable receive buffer differ from the deliveries on private copies of the same bytes"
 			}
 			if o != "" {
 				dc.Oracle, dc.BadAt = o, pi
@@ -674,6 +857,7 @@ func driveCase(kind string, data []byte, parts [][]int, want []Msg, valid bool) 
 
 func prefixCase(kind string, data []byte, frames []int, want []Msg) PrefixCase {
 	pc := PrefixCase{Kind: kind, Data: hx(data), Frames: frames, Want: want, BadAt: -1}
+	freshHandler()
 	keys := map[string]int{}
 	for k := 0; k <= len(data); k++ {
 		if diverged >= 2 {
@@ -701,6 +885,112 @@ func prefixCase(kind string, data []byte, frames []int, want []Msg) PrefixCase {
 	return pc
 }
 
+// history: buffers an earlier connection may have shown to the same handler: a frame that
+// stopped arriving after its header, a few bytes of one, garbage
+func history(r *hutil.Rng) [][]byte {
+	long, err := writeFrame(message.RpcMessage{ID: 7, Type: message.GettyRequestTypeRequestSync, Codec: 1,
+		Body: message.BranchRegisterRequest{Xid: "10.0.0.1:8091:1", ResourceId: "r", LockKey: string(r.Bytes(200 + r.Intn(200)))}})
+	if err != nil {
+		return nil
+	}
+	var h [][]byte
+	switch r.Intn(3) {
+	case 0:
+		h = append(h, long[:16+r.Intn(40)])
+	case 1:
+		h = append(h, long[:1+r.Intn(15)], long[:20])
+	default:
+		h = append(h, genHostile(r), long[:len(long)-1])
+	}
+	return h
+}
+
+// readCase: Read(data) on a fresh handler, and the same bytes on a handler that has served
+// other buffers before (history): the answers must be the same
+func readCase(kind string, data []byte, history [][]byte) ReadCase {
+	freshHandler()
+	rr := readOnce(data)
+	rc := ReadCase{Kind: kind, Data: hx(data), Res: rr, Oracle: garbageOracleRes(rr)}
+	if len(history) > 0 && diverged < 2 {
+		freshHandler()
+		for _, h := range history {
+			rc.History = append(rc.History, hx(h))
+			readOnce(h)
+		}
+		after := readOnce(data)
+		rc.After = &after
+		a, _ := json.Marshal(rr)
+		b, _ := json.Marshal(after)
+		if rc.Oracle == "" && !bytes.Equal(a, b) {
+			rc.Oracle = fmt.Sprintf("Read answered (%s, consumed %d) for these bytes on a fresh handler and (%s, consumed %d) on the handler after %d earlier call(s): it is not a function of the bytes it is given", rr.C, rr.N, after.C, after.N, len(history))
+		}
+	}
+	return rc
+}
+
+// interleaveCase: two connections, each with its own receive buffer, served by ONE handler
+// instance; A is cut off mid-frame, B receives complete frames; chunks arrive as scheduled
+func interleaveCase(kind string, a, b []byte, sched [][2]int, wantA, wantB []Msg) InterleaveCase {
+	ic := InterleaveCase{Kind: kind, A: hx(a), B: hx(b), Sched: sched, WantA: wantA, WantB: wantB, EvA: []Ev{}, EvB: []Ev{}}
+	freshHandler()
+	data := [2][]byte{a, b}
+	var buf [2][]byte
+	var closed [2]bool
+	var evs [2][]Ev
+	for _, sc := range sched {
+		side, n := sc[0], sc[1]
+		if n > len(data[side]) {
+			n = len(data[side])
+		}
+		chunk := data[side][:n]
+		data[side] = data[side][n:]
+		if closed[side] || len(chunk) == 0 {
+			continue
+		}
+		buf[side] = append(buf[side], chunk...)
+		for len(buf[side]) > 0 && !closed[side] {
+			r := readOnce(buf[side])
+			switch r.C {
+			case "panic", "diverged":
+				evs[side], closed[side] = append(evs[side], Ev{E: r.C}), true
+			case "err":
+				evs[side], closed[side] = append(evs[side], Ev{E: "close"}), true
+			}
+			if closed[side] {
+				break
+			}
+			if r.C == "need" {
+				if r.Stall {
+					evs[side], closed[side] = append(evs[side], Ev{E: "stall"}), true
+				}
+				break
+			}
+			evs[side] = append(evs[side], Ev{E: "deliver", M: r.M})
+			if r.N <= 0 {
+				evs[side], closed[side] = append(evs[side], Ev{E: "spin"}), true
+				break
+			}
+			if r.N >= len(buf[side]) {
+				buf[side] = buf[side][:0]
+			} else {
+				buf[side] = buf[side][r.N:]
+			}
+		}
+	}
+	if evs[0] != nil {
+		ic.EvA = evs[0]
+	}
+	if evs[1] != nil {
+		ic.EvB = evs[1]
+	}
+	if o := streamOracle(ic.EvB, wantB); o != "" {
+		ic.Oracle = "connection B, served by the same handler as a connection that stopped mid-frame: " + o
+	} else if o := streamOracle(ic.EvA, wantA); o != "" {
+		ic.Oracle = "connection A (cut off mid-frame, complete frames before the cut expected): " + o
+	}
+	return ic
+}
+
 // replay re-runs the inputs of recorded cases (a Result-shaped file: the inputs
 // of its reads / prefixes / drives are taken, the observations are made afresh)
 func replay(path string, res *Result) {
@@ -714,8 +1004,17 @@ func replay(path string, res *Result) {
 	}
 	for _, c := range in.Reads {
 		data, _ := hex.DecodeString(c.Data)
-		rr := readOnce(data)
-		res.Reads = append(res.Reads, ReadCase{Kind: c.Kind, Data: c.Data, Res: rr, Oracle: garbageOracleRes(rr)})
+		var hist [][]byte
+		for _, h := range c.History {
+			b, _ := hex.DecodeString(h)
+			hist = append(hist, b)
+		}
+		res.Reads = append(res.Reads, readCase(c.Kind, data, hist))
+	}
+	for _, c := range in.Interleaves {
+		a, _ := hex.DecodeString(c.A)
+		b, _ := hex.DecodeString(c.B)
+		res.Interleaves = append(res.Interleaves, interleaveCase(c.Kind, a, b, c.Sched, c.WantA, c.WantB))
 	}
 	for _, c := range in.Prefixes {
 		data, _ := hex.DecodeString(c.Data)
@@ -731,7 +1030,7 @@ func replay(path string, res *Result) {
 		for _, p := range c.Parts {
 			parts = append(parts, p.Lens)
 		}
-		res.Drives = append(res.Drives, driveCase(c.Kind, data, parts, c.Want, c.NMsgs >= 0))
+		res.Drives = append(res.Drives, driveCaseBad(c.Kind, data, parts, c.Want, c.NMsgs >= 0, c.BadFrame))
 	}
 }
 
@@ -775,9 +1074,8 @@ func Run(a map[string]string) {
 			rest = nil
 		}
 		data := append(append([]byte{}, out...), rest...)
-		rr := readOnce(data)
-		rc := ReadCase{Kind: "frame+rest", Data: hx(data), Res: rr}
-		rc.Oracle = garbageOracleRes(rr)
+		rc := readCase("frame+rest", data, history(r))
+		rr := rc.Res
 		if rc.Oracle == "" {
 			rc.Oracle = prefixOracle(len(data), rr, []int{len(out)}, []Msg{e})
 		}
@@ -854,6 +1152,99 @@ func Run(a map[string]string) {
 			parts = append(parts, ones)
 		}
 		res.Drives = append(res.Drives, driveCase("stream", data, parts, want, true))
+
+		// (3b) the same kind of stream with ONE well-delimited frame whose body no codec understands
+		// (unknown type code, unregistered serializer, no body at all) somewhere in it
+		if i%2 == 0 {
+			bad := r.Intn(len(frames) + 1)
+			var body []byte
+			ct := byte(1)
+			switch r.Intn(3) {
+			case 0:
+				body = append([]byte{0x77, byte(r.Intn(256))}, r.Bytes(r.Intn(12))...)
+			case 1:
+				ct = byte(2 + r.Intn(6)) // a serializer nobody registered
+				body = []byte{0x00, 0x01, 0x00, 0x00, 0x00, 0x00}
+			}
+			bf := rawFrame(uint32(16+len(body)), 16, byte(r.Intn(3)), ct, 0, uint32(r.Next()), 1, body)
+			var d2 []byte
+			var w2 []Msg
+			var cuts []int
+			p := 0
+			for j := 0; j <= len(frames); j++ {
+				if j == bad {
+					d2 = append(d2, bf...)
+					w2 = append(w2, Msg{ID: uint32(bf[12])<<24 | uint32(bf[13])<<16 | uint32(bf[14])<<8 | uint32(bf[15]), Type: int(bf[9]), Codec: int(ct), Head: [][2]string{}, Body: hx(body), BodyOK: true})
+					cuts = append(cuts, len(d2))
+				}
+				if j < len(frames) {
+					d2 = append(d2, data[p:p+frames[j]]...)
+					w2 = append(w2, want[j])
+					p += frames[j]
+					cuts = append(cuts, len(d2))
+				}
+			}
+			parts2 := [][]int{{}}
+			for _, c := range cuts {
+				if c < len(d2) {
+					parts2 = append(parts2, []int{c})
+				}
+			}
+			for j := 0; j < 4; j++ {
+				parts2 = append(parts2, randomPartition(r, len(d2)))
+			}
+			res.Drives = append(res.Drives, driveCaseBad("stream+undecodable", d2, parts2, w2, false, bad))
+		}
+
+		// (3c) two connections on one handler: A receives this stream but stops mid-frame, B receives
+		// another stream completely; the receives are interleaved
+		{
+			var bData []byte
+			var wantB []Msg
+			for j := 0; j < 1+r.Intn(3); j++ {
+				m := genMsg(r)
+				out, err := writeFrame(m)
+				if err != nil {
+					continue
+				}
+				bData = append(bData, out...)
+				wantB = append(wantB, expectOf(m))
+			}
+			// A: complete frames up to `keepFrames`, then 1..(len-1) bytes of the next frame
+			keepFrames := r.Intn(len(frames))
+			cutAt := 0
+			for j := 0; j < keepFrames; j++ {
+				cutAt += frames[j]
+			}
+			cutAt += 1 + r.Intn(frames[keepFrames]-1)
+			aData := data[:cutAt]
+			var sched [][2]int
+			la, lb := len(aData), len(bData)
+			for la > 0 || lb > 0 {
+				side := r.Intn(2)
+				if la == 0 {
+					side = 1
+				} else if lb == 0 {
+					side = 0
+				}
+				n := 1 + r.Intn(40)
+				if side == 0 {
+					if n > la {
+						n = la
+					}
+					la -= n
+				} else {
+					if n > lb {
+						n = lb
+					}
+					lb -= n
+				}
+				sched = append(sched, [2]int{side, n})
+			}
+			if len(bData) > 0 {
+				res.Interleaves = append(res.Interleaves, interleaveCase("interleave", aData, bData, sched, want[:keepFrames], wantB))
+			}
+		}
 	}
 
 	// (4) garbage: structured (valid magic, hostile lengths) and random; single
@@ -876,8 +1267,11 @@ func Run(a map[string]string) {
 		default:
 			data = genHostile(r)
 		}
-		rr := readOnce(data)
-		res.Reads = append(res.Reads, ReadCase{Kind: kind, Data: hx(data), Res: rr, Oracle: garbageOracleRes(rr)})
+		var hist [][]byte
+		if i%2 == 0 {
+			hist = history(r)
+		}
+		res.Reads = append(res.Reads, readCase(kind, data, hist))
 		if i%3 == 0 {
 			res.Prefixes = append(res.Prefixes, prefixCase(kind+"-prefixes", data, nil, nil))
 		}
